@@ -376,6 +376,10 @@ pub fn run_listvar(ctx: &mut Ctx) {
         let n = if k < 5 { k } else { 1 + ctx.rng.below(6) };
         let items: Vec<Probe> = (0..n).map(|_| { let l = ctx.rng.below(4); Probe(ctx.rng.bytes(l)) }).collect();
         let e = items.as_ssz_bytes();
+        // C09 completeness: every offset-table layout is accepted and yields the items back
+        let (_, _, _, r) = listvar_case::<VecC>(&e, None, |c| c.0);
+        let want: Vec<Vec<u8>> = items.iter().map(|p| p.0.clone()).collect();
+        ctx.out.r("C09", "listvar", matches!(&r, Ok(Some(got)) if *got == want), &["list_layout_accepted", "listvar", "-", "v", &hex(&e)]);
         let muts = crate::codec::mutations(&mut ctx.rng, &e, ctx.thorough);
         inputs.push(e);
         inputs.extend(muts);
@@ -416,6 +420,11 @@ pub fn run_listvar(ctx: &mut Ctx) {
         ctx.out.r("C16", "listvar", res0.is_ok(), &["listvar_no_panic", "listvar", "-", "v", &hx]);
         if b.is_empty() {
             ctx.out.r("C16", "listvar", matches!(&res0, Ok(Some(v)) if v.is_empty()), &["empty_input_empty_collection", "listvar", "-", "v", &hx]);
+        }
+        // C09: whatever is accepted is the offset-table encoding of the slices handed out
+        if let Ok(Some(items)) = &res0 {
+            let re = items.iter().map(|i| Probe(i.clone())).collect::<Vec<_>>().as_ssz_bytes();
+            ctx.out.r("C09", "listvar", re == b, &["list_slices_tile_input", "listvar", "-", "v", &hx]);
         }
         // C06: what the collection is told to reserve is physically present in the input
         if let Some(Some(n)) = hint0 {
